@@ -212,18 +212,21 @@ bool TokenData::operator==(const TokenData& rhs) const {
 TokenData TokenData::FromIndexSequence(const std::string& sequence) {
   std::vector<Index> indicies{};
   Index index = 0;
+  bool hasDigits = false; // Note: zero index is kept (and rejected by type check), otherwise "pr0" has no indices at all
   for (const auto ch : sequence) {
     if (std::isdigit(static_cast<unsigned char>(ch))) {
       index *= 10; // NOLINT: ignore magic number
       index += static_cast<Index>(ch - '0'); // NOLINT: ignore narrowing conversion
+      hasDigits = true;
     } else {
-      if (index != 0) {
+      if (hasDigits) {
         indicies.push_back(index);
       }
       index = 0;
+      hasDigits = false;
     }
   }
-  if (index != 0) {
+  if (hasDigits) {
     indicies.push_back(index);
   }
   return TokenData{ indicies };
